@@ -40,8 +40,8 @@ var cleanedMethods = []string{"call", "terminate", "property", "properties", "se
 // HostileClasses: first the classes that meet a trigger of a recorded defect, then the
 // classes that must work.
 var HostileClasses = []string{"kw_param", "recv_param", "gen_param", "title_fields", "title_structs", "title_sigstruct",
-	"iface_lower", "reserved_method",
-	"kw_names", "title_methods", "cleaned_methods", "benign_params", "overload", "cross_iface", "dup_struct"}
+	"iface_lower", "reserved_method", "objref_prop", "objref_struct",
+	"objref", "kw_names", "title_methods", "cleaned_methods", "benign_params", "overload", "cross_iface", "dup_struct"}
 
 func pick(r *hx.Rng, xs []string) string { return xs[r.Intn(len(xs))] }
 
@@ -167,6 +167,30 @@ func GenHostile(r *hx.Rng, name, class string) *Package {
 		s := newStruct("Hzdup", "a")
 		p.Structs = append(p.Structs, &StructDecl{Name: "Hzdup", Fields: []Field{{"b", Sc("str")}, {"c", Sc("bool")}}})
 		addFn("hz", []Param{{"a", RefTo(s)}})
+	case "objref", "objref_prop", "objref_struct":
+		// interface J (with a method and a property of its own) handed around by interface I
+		j := &Iface{Name: "Hzbomb", Actions: []*Action{
+			{Kind: "fn", Name: "hzarm", Params: []Param{{"a", Sc("int32")}}, Ret: Sc("int32")},
+			{Kind: "prop", Name: "hzdelay", Params: []Param{{"d", g.scalar()}}},
+			{Kind: "sig", Name: "hzboom", Params: []Param{{"e", Sc("str")}}}}}
+		p.Ifaces = append(p.Ifaces, j)
+		switch class {
+		case "objref":
+			it0.Actions = append(it0.Actions,
+				&Action{Kind: "fn", Name: "hzmake", Ret: ObjOf(j)},
+				&Action{Kind: "fn", Name: "hztake", Params: []Param{{"a", Sc("int32")}, {"b", ObjOf(j)}}, Ret: Sc("int32")},
+				&Action{Kind: "sig", Name: "hzsent", Params: []Param{{"b", ObjOf(j)}}})
+		case "objref_prop":
+			it0.Actions = append(it0.Actions, &Action{Kind: "prop", Name: "hzcur", Params: []Param{{"b", ObjOf(j)}}})
+		default:
+			if r.Bool() {
+				s := &StructDecl{Name: "Hzcargo", Fields: []Field{{"b", ObjOf(j)}, {"n", Sc("int32")}}}
+				p.Structs = append(p.Structs, s)
+				addFn("hzload", []Param{{"a", RefTo(s)}})
+			} else {
+				it0.Actions = append(it0.Actions, &Action{Kind: "sig", Name: "hzsent", Params: []Param{{"x", Sc("int32")}, {"b", ObjOf(j)}}})
+			}
+		}
 	default:
 		panic("unknown hostile class " + class)
 	}
